@@ -355,17 +355,52 @@ def gen_case(ch: Chooser, excl=()):
         m = b.files[i]["units"][0]
         if m["uses"] and ch.bool(2, 3):
             consumers.append(("modspec", m, [m["name"]], False))
-    # (b) a module procedure with its own USE
+    # (b) a module procedure - and an internal procedure inside it - with their own USE of any
+    #     module that does not (transitively) depend on the host module
+    def all_uses(node):
+        for u in node.get("uses", []):
+            yield u["module"]
+        for p_ in node.get("procs", []):
+            yield from all_uses(p_)
+
+    def closure():
+        direct = {}
+        for i_ in range(k):
+            direct[i_] = {int(x[1:]) for x in all_uses(b.files[i_]["units"][0]) if x[0] == "m" and x[1:].isdigit()}
+        deps_ = {i_: set(direct[i_]) for i_ in range(k)}
+        changed = True
+        while changed:
+            changed = False
+            for i_ in range(k):
+                for j_ in list(deps_[i_]):
+                    new_ = deps_[j_] - deps_[i_]
+                    if new_:
+                        deps_[i_] |= new_
+                        changed = True
+        return deps_
+
     for i in range(k):
-        if ch.bool(1, 3):
+        if ch.bool(1, 2):
             m = b.files[i]["units"][0]
+            deps = closure()
+            allowed = [x for x in range(k) if x != i and i not in deps[x]]
             p = {"k": "subroutine", "name": b.fresh("cons"), "args": [], "prefix": [], "decls": [], "exec": [], "procs": [],
                  "uses": [], "doc": None}
-            for j in ch.shuffle([x for x in range(k) if x != i and x < i or (x != i and False)])[:2]:
+            for j in ch.shuffle(allowed)[: ch.count(0, 2)]:
                 b.add_uses(p, f"m{j}", sem)
             m["procs"].append(p)
             if p["uses"]:
                 consumers.append(("modproc", p, [m["name"], p["name"]], True))
+            if ch.bool(1, 2):
+                q = {"k": "subroutine", "name": b.fresh("inner"), "args": [], "prefix": [], "decls": [], "exec": [],
+                     "procs": [], "uses": [], "doc": None}
+                used_here = {u["module"] for u in p["uses"]}
+                for j in [x for x in ch.shuffle(allowed) if f"m{x}" not in used_here][: ch.count(1, 2)]:
+                    b.add_uses(q, f"m{j}", sem)
+                p["procs"].append(q)
+                if q["uses"]:
+                    consumers.append(("innerproc", q, [m["name"], p["name"], q["name"]], True))
+                    b.feats.add("use-in-internal-procedure")
     # (c) program, (d) external subroutine
     for kind in ("program", "subroutine"):
         if ch.bool(2, 3):
